@@ -75,7 +75,7 @@ func (k *rkey) size() int {
 // ambiguous: the statement does not say whether such a key still has a type
 func (k *rkey) ambiguous() bool {
 	if k.typ == "string" {
-		return k.expired || k.pending
+		return k.pending // an expired string is absent, for every command; a pending one depends on the clock
 	}
 	return k.typ != "" && k.size() == 0
 }
@@ -91,6 +91,7 @@ type redisRunner struct {
 	// features
 	delRecreate, restartAfterAgg, restarts, aggUpdates, wrongType, excluded, crossType int
 	sleeps                                                                             int
+	expiredOther                                                                       int  // commands of another type, or Type, on an expired string
 	shortSinceSleep                                                                    bool // a short TTL was handed out since the last sleep
 	deleted                                                                            map[string]bool
 }
@@ -163,7 +164,7 @@ func (r *redisRunner) admissible(c *rcmd) bool {
 	if !k.ambiguous() {
 		return true
 	}
-	// emptied aggregate / expired string: only same-type commands are determined
+	// emptied aggregate: only same-type commands are determined
 	if c.C == "type" {
 		return false
 	}
@@ -228,6 +229,13 @@ func (r *redisRunner) step(c rcmd) (fail *kvh.Fail) {
 		}()
 	}
 	k := r.key(c.Key)
+	if k.typ == "string" && k.expired && c.C != "sleep" {
+		// expired means absent - for the commands of every type and for Type, not only for Get
+		if c.C != "get" && c.C != "set" && c.C != "del" {
+			r.expiredOther++
+		}
+		*k = rkey{}
+	}
 	t := typeOf(c.C)
 	wrong := t != "" && c.C != "set" && k.typ != "" && k.typ != t
 	if wrong {
@@ -562,7 +570,7 @@ var (
 func TestC19(t *testing.T) {
 	st := kvh.StatsFor("C19")
 	st.SetRule(c19Rule,
-		"excluded by construction (counted): a command of another type, or Type, on a key whose aggregate was emptied by element removal or whose string has expired - the statement does not say whether such a key still has a type",
+		"excluded by construction (counted): a command of another type, or Type, on a key whose aggregate was emptied by element removal - the statement does not say whether such a key still has a type (an expired string is absent for every command)",
 		"TTLs are 0, +1h, -1h, the longest duration there is, or 30 ms; a key set with the 30 ms TTL is not looked at until a deliberate wait of 45 ms has passed (then it must have expired) or it has been overwritten - no outcome depends on the clock in the other direction",
 		"user keys are <= 2 bytes and can never collide with the >= 9-byte internal element keys; 6 % of the hash values and list elements are empty: the reply of a read is then the same as for an absent element, the new/existing flags, sizes and pop order are not")
 	defer finishProperty(st)
@@ -673,7 +681,7 @@ func c19Run(t *rapid.T, st *kvh.Stats) {
 				cmd.F = kvh.Pick(t, c19Fields, "field")
 			}
 			if !r.admissible(&cmd) {
-				st.Exclude("cross-type-command-on-emptied-aggregate-or-expired-string", 1)
+				st.Exclude("cross-type-command-on-emptied-aggregate", 1)
 				r.excluded++
 				t.Skip("reply not determined by the statement")
 			}
@@ -694,6 +702,7 @@ func c19Run(t *rapid.T, st *kvh.Stats) {
 	}
 	lab(r.restarts > 0, "restart")
 	lab(r.sleeps > 0, "short-ttl-waited-out")
+	lab(r.expiredOther > 0, "command-of-another-type-on-an-expired-string")
 	lab(r.restartAfterAgg > 0, "restart-after-aggregate-update")
 	lab(r.delRecreate > 0, "del-and-recreate")
 	lab(r.wrongType > 0, "wrong-type-command")
